@@ -714,6 +714,11 @@ pub mod sync {
                 sched_point(Pending::Unlock(id));
             }
             self.inner.take();
+            if self.id.is_some() {
+                // with file operations as scheduling points, what follows a release (printing a line, touching a
+                // buffer) can be overtaken by another thread: yield once more after the lock is free
+                fs_point();
+            }
         }
     }
 
